@@ -44,6 +44,10 @@ type concurrentCheckgroup struct {
 	// reading from reserveCheckCh reserves the right to create a concurrent
 	// check.
 	reserveCheckCh chan struct{}
+
+	// truncation is marked if a subcheck result was influenced by a limit
+	// (see TruncationMarker). It must only be read after doneCh is closed.
+	truncation TruncationMarker
 }
 
 func NewConcurrent(ctx context.Context) Checkgroup {
@@ -54,7 +58,7 @@ func NewConcurrent(ctx context.Context) Checkgroup {
 		addCheckCh:     make(chan CheckFunc),
 		reserveCheckCh: make(chan struct{}, 1),
 	}
-	g.subcheckCtx, g.cancel = context.WithCancel(g.ctx)
+	g.subcheckCtx, g.cancel = context.WithCancel(WithTruncationMarker(g.ctx, &g.truncation))
 	g.startConsumer()
 	return g
 }
@@ -115,6 +119,9 @@ func (g *concurrentCheckgroup) startConsumer() {
 
 				case result := <-resultCh:
 					finishedChecks++
+					if result.Err == nil && result.Membership == MembershipUnknown {
+						g.truncation.truncated.Store(true)
+					}
 					if result.Err != nil || result.Membership == IsMember {
 						g.result = result
 						return
@@ -185,6 +192,23 @@ func (g *concurrentCheckgroup) Result() Result {
 	return g.result
 }
 
+// reportTruncation tells the consumer of the result (identified by the context
+// the result was requested with) if "not a member" really means "unknown
+// because of a limit".
+func (g *concurrentCheckgroup) reportTruncation(ctx context.Context) {
+	if g.result.Err == nil && g.result.Membership != IsMember && g.truncation.Truncated() {
+		MarkTruncated(ctx)
+	}
+}
+
+// ResultFor returns the Result like Result(), and reports truncation to the
+// marker of ctx.
+func (g *concurrentCheckgroup) ResultFor(ctx context.Context) Result {
+	res := g.Result()
+	g.reportTruncation(ctx)
+	return res
+}
+
 // CheckFunc returns a CheckFunc that writes the result to the result channel.
 func (g *concurrentCheckgroup) CheckFunc() CheckFunc {
 	return func(ctx context.Context, resultCh chan<- Result) {
@@ -193,6 +217,7 @@ func (g *concurrentCheckgroup) CheckFunc() CheckFunc {
 
 		select {
 		case <-g.doneCh:
+			g.reportTruncation(ctx)
 			resultCh <- g.result
 		case <-ctx.Done():
 			g.cancel()
